@@ -155,6 +155,7 @@ fn main() {
         return;
     }
     let thorough = a.tier == "thorough";
+    let only_panics = a.extra.iter().any(|x| x == "panics");
     let ns: Vec<usize> = if thorough { vec![0, 1, 2, 3, 5, 8, 16, 33] } else { vec![0, 1, 2, 3, 5, 8] };
     for &n in &ns {
         for form in 0..4i128 {
@@ -177,8 +178,10 @@ fn main() {
                     // plain script
                     let mut case = vec![form, n as i128, lo, hi];
                     case.extend(&items);
-                    dist("plain");
-                    do_case(case.clone());
+                    if !only_panics {
+                        dist("plain");
+                        do_case(case.clone());
+                    }
                     // a panic at every poll index
                     for k in 0..=count {
                         let mut c = vec![form, n as i128, lo, hi];
@@ -189,7 +192,10 @@ fn main() {
                         do_case(c);
                     }
                     // not fused: None at j, then more items
-                    for j in 0..=count.min(n + 1) {
+                    for j in 0..=(if only_panics { 0 } else { count.min(n + 1) + 1 }) {
+                        if j > count.min(n + 1) || only_panics {
+                            break;
+                        }
                         let mut c = vec![form, n as i128, lo, hi];
                         c.extend(&items[..j]);
                         c.push(-1);
@@ -204,7 +210,7 @@ fn main() {
     }
     // seeded scripts for larger N
     let mut rng = Rng::new(a.seed);
-    let count = if thorough { 4000 } else { 300 };
+    let count = if only_panics { 0 } else if thorough { 4000 } else { 300 };
     let lens = [5usize, 8, 16, 33, 1025];
     for i in 0..count {
         let n = lens[i % lens.len()];
